@@ -104,11 +104,16 @@ class TypeRegistry:
                 return self._cache[t]
             except KeyError:
                 pass
-        for detector, trans, priority in self._registry:
+        registry = self._registry
+        for detector, trans, priority in registry:
             try:
                 if detector(t):
                     if self.cache:
-                        self._cache[t] = trans
+                        with self._lock:
+                            if self._registry is registry:
+                                # (a registration made during this scan swapped the list and cleared the cache:
+                                # the outcome of the old list must not be written into the new cache)
+                                self._cache[t] = trans
                     return trans
             except (TypeError, ValueError):
                 continue
